@@ -177,6 +177,12 @@ def rand_comp(rng, nx, ny, k=0, ncomp=1):
     theta = rng.choice([-1, 1]) * rng.uniform(5.0, 175.0)
     if rng.random() < 0.1:
         theta += rng.choice([-360.0, 360.0])
+    # a negative width is the same Gaussian as |width| and a valid model (only sx != sy is required); the
+    # derivative with respect to it changes sign
+    if rng.random() < 0.15:
+        sx = -sx
+    if rng.random() < 0.15:
+        sy = -sy
     return (amp, cx, cy, sx, sy, theta)
 
 
@@ -184,7 +190,8 @@ def rand_grid(rng, nx, ny, frac_masked):
     """integer pixel coordinates of the unmasked pixels of an nx x ny image, as covar_errors sees them"""
     data = np.ones((nx, ny))
     for _ in range(int(frac_masked * nx * ny)):
-        data[rng.randrange(nx), rng.randrange(ny)] = np.nan
+        # blanked pixels: NaN, but also +/-inf (do_lmfit and covar_errors keep the FINITE pixels)
+        data[rng.randrange(nx), rng.randrange(ny)] = rng.choice([np.nan, np.nan, np.inf, -np.inf])
     mx, my = np.where(np.isfinite(data))
     return data, mx, my
 
@@ -299,7 +306,7 @@ class Model:
 
     def case(self, kind, **kw):
         d = case_dict(kind, self.comps, self.masks, shape=list(self.data.shape),
-                      masked=[[int(a), int(b)] for a, b in zip(*np.where(~np.isfinite(self.data)))],
+                      masked=[[int(a), int(b), BLANK_NAME(self.data[a, b])] for a, b in zip(*np.where(~np.isfinite(self.data)))],
                       errs_kind=self.errs_kind, b_kind=self.b_kind, use_c=self.use_c,
                       errs_val=(None if self.errs_val is None else
                                 (float(self.errs_val) if self.errs_kind == 'escalar' else list(map(float, self.errs_val)))),
@@ -308,10 +315,14 @@ class Model:
         return d
 
 
+def BLANK_NAME(v):
+    return 'nan' if v != v else ('inf' if v > 0 else '-inf')
+
+
 def model_from_case(c):
     data = np.ones(tuple(c['shape']))
-    for a, b in c.get('masked', []):
-        data[a, b] = np.nan
+    for ent in c.get('masked', []):
+        data[ent[0], ent[1]] = {'inf': np.inf, '-inf': -np.inf}.get(ent[2] if len(ent) > 2 else 'nan', np.nan)
     ev = c.get('errs_val')
     return Model([tuple(x) for x in c['comps']], list(c['masks']), data, c.get('errs_kind', 'enone'),
                  c.get('b_kind', 'bnone'), c.get('use_c', False), ev, c.get('beam'), c.get('order', 'canonical'))
@@ -519,7 +530,11 @@ def run_models(ctx, models, tag='random', truth=False):
                          dict(site='fitting.covar_errors', what='stderr-assignment-model'))
         # value level (also when the written errors could not be identified among the entries of a replicated
         # onesigma, status 'ambiguous': then the values themselves are compared)
-        assignment_fine = (rec['status'] == 'ok' and sp == 'ok' and rec['obs'] == want) or rec['status'] == 'ambiguous'
+        # 'singular' (the code wrote the marker -2 or its own Fisher matrix was not invertible) is judged too: if the
+        # model's Fisher matrix is well conditioned (covar_psd_pd: then onesigma is defined and positive) the
+        # errors must be those, not 'undetermined'
+        assignment_fine = (rec['status'] == 'ok' and sp == 'ok' and rec['obs'] == want) \
+            or rec['status'] in ('ambiguous', 'singular')
         if assignment_fine:
             if rec['lmjac'] is not None:
                 # value level: Fisher matrix from the model's Jacobian
@@ -573,7 +588,8 @@ def fisher_words(ctx):
     if fw is None:
         w = ctx.driver.batch(['fisherwords'])[0].split()
         ic, ib = w.index('C'), w.index('B')
-        fw = dict(jacC=int(w[0]), jacB=int(w[1]), sigma=int(w[2]), C=[int(t) for t in w[ic + 1:ib]],
+        fw = dict(jacC=int(w[0]), jacB=int(w[1]), sigma=int(w[2]), mask_covar=int(w[3]), mask_fit=int(w[4]),
+                  C=[int(t) for t in w[ic + 1:ib]],
                   B=[int(t) for t in w[ib + 1:]])
         ctx.extra['_fisher_words'] = fw
     return fw
@@ -599,6 +615,7 @@ def index_sweep(ctx, mask_lists):
     """the stderr loop through the real covar_errors on a fixed well-conditioned island"""
     data = np.ones((16, 7))
     data[0, 0] = np.nan
+    data[15, 6] = np.inf
     models = [Model(SWEEP_COMPS[:len(ms)], list(ms), data, 'escalar', 'bnone', False, 0.7,
                     order=ORDERS[k % len(ORDERS)]) for k, ms in enumerate(mask_lists)]
     for chunk in range(0, len(models), 400):
@@ -640,6 +657,16 @@ CORPUS = [
          beam=[1.0, 0.7, -20.0], order='readd'),
     dict(kind='corpus', comps=[[2.0, 4.0, 4.0, 3.0, 1.5, 30.0]], masks=[63], shape=[9, 9], masked=[],
          errs_kind='enone', b_kind='bmat', use_c=False, beam=[0.9, 0.6, 40.0], order='reversed'),
+    # +/-inf blanks next to NaN blanks (round 8): plain, B and C paths; and negative widths
+    dict(kind='corpus', comps=[[3.0, 3.0, 3.5, 1.6, 1.1, 20.0], [5.0, 9.0, 3.0, -1.2, 1.9, -35.0]], masks=[63, 63],
+         shape=[13, 7], masked=[[0, 0, 'nan'], [6, 3, 'inf'], [12, 6, '-inf']], errs_kind='escalar', errs_val=1.0,
+         b_kind='bnone', use_c=False),
+    dict(kind='corpus', comps=[[3.0, 3.0, 3.5, 1.6, -1.1, 20.0], [5.0, 9.0, 3.0, 1.2, 1.9, -35.0]], masks=[63, 63],
+         shape=[13, 7], masked=[[1, 5, 'inf'], [8, 0, '-inf']], errs_kind='escalar', errs_val=0.7,
+         b_kind='bmat', use_c=False, beam=[1.0, 0.7, 30.0]),
+    dict(kind='corpus', comps=[[3.0, 3.0, 3.5, 1.6, 1.1, 20.0]], masks=[63],
+         shape=[9, 7], masked=[[1, 5, '-inf'], [4, 0, 'inf'], [8, 6, 'nan']], errs_kind='escalar', errs_val=0.7,
+         b_kind='bmat', use_c=True, beam=[1.0, 0.7, 30.0]),
 ]
 
 
@@ -989,7 +1016,8 @@ def leaf_spec_probe(ctx, npts):
        as a second opinion.  Reports the first failing (params, pixel, entry) per entry kind, shrunk."""
     fitting = fit()
     rng = ctx.rng
-    pts = [(4.0, 5.0, (2.0, 4.0, 4.0, 3.0, 1.5, 30.0))]
+    pts = [(4.0, 5.0, (2.0, 4.0, 4.0, 3.0, 1.5, 30.0)), (4.0, 5.0, (2.0, 4.0, 4.0, -3.0, 1.5, 30.0)),
+           (3.0, 6.0, (2.0, 4.0, 4.0, 3.0, -1.5, 30.0))]
     for _ in range(npts):
         c = rand_comp(rng, 10, 10)
         pts.append((float(rng.randint(0, 9)), float(rng.randint(0, 9)), c))
@@ -1050,7 +1078,7 @@ def shrink_leaf(ctx, fitting, x, y, c, k):
     cur = (x, y, tuple(c))
 
     def fails(x, y, c):
-        if c[3] <= 0 or c[4] <= 0 or c[0] == 0:
+        if c[3] == 0 or c[4] == 0 or c[0] == 0:
             return False
         (impl, truth, fd, g, tg), = leaf_probe(ctx, fitting, [(x, y, c)])
         return k in leaf_bad(impl, truth, fd, abs(c[0]))
